@@ -103,6 +103,8 @@ class DistributedNetwork(BaseManager):
         self.register_listeners()
 
         self._potential_parent_tasks: list[asyncio.Task] = []
+        self._potential_parent_usernames: dict[asyncio.Task, str] = {}
+        """Name of the user each pending potential parent request is for"""
 
     def register_listeners(self):
         self._event_bus.register(
@@ -179,8 +181,13 @@ class DistributedNetwork(BaseManager):
         logger.info("set parent : %s", peer)
         self.parent = peer
 
+        # The request that led to the connection of the new parent can still be
+        # wrapping up (the peer announced its branch values right away): a
+        # cancelled request closes its connection, leave it to finish
         await asyncio.gather(
-            *self._cancel_potential_parent_tasks(), return_exceptions=True)
+            *self._cancel_potential_parent_tasks(except_username=peer.username),
+            return_exceptions=True
+        )
         # Cancel all tasks related to potential parents and disconnect all other
         # distributed connections except for children and the parent connection
         # Other distributed connection from the parent that we have should also
@@ -350,6 +357,7 @@ class DistributedNetwork(BaseManager):
             logger.info("request for potential parent successful (username=%s)", username)
         finally:
             self._potential_parent_tasks.remove(task)
+            self._potential_parent_usernames.pop(task, None)
 
     # Server messages
 
@@ -408,6 +416,7 @@ class DistributedNetwork(BaseManager):
                 partial(self._potential_parent_task_callback, entry.username)
             )
             self._potential_parent_tasks.append(task)
+            self._potential_parent_usernames[task] = entry.username
 
     @on_message(ServerSearchRequest.Response)
     async def _on_server_search_request(self, message: ServerSearchRequest.Response, connection):
@@ -658,10 +667,20 @@ class DistributedNetwork(BaseManager):
         """
         return self._cancel_potential_parent_tasks()
 
-    def _cancel_potential_parent_tasks(self) -> list[asyncio.Task]:
+    def _cancel_potential_parent_tasks(
+            self, except_username: Optional[str] = None) -> list[asyncio.Task]:
+        """Cancels the pending requests for connections to potential parents
+
+        :param except_username: requests for this user are left alone
+        :return: the tasks that have been cancelled
+        """
         cancelled_tasks = []
 
         for task in self._potential_parent_tasks:
+            if except_username is not None:
+                if self._potential_parent_usernames.get(task) == except_username:
+                    continue
+
             task.cancel()
             cancelled_tasks.append(task)
 
